@@ -875,6 +875,19 @@ def np_zeros(it, shape, dtype=None, order=None):
     return _filled(it, shape, 0.0)
 
 
+def np_arange(it, *args, **kw):
+    """np.arange(n) / np.arange(lo, hi) with integer arguments and step 1: the array [lo, lo + 1, ..., hi - 1]"""
+    if kw or len(args) not in (1, 2):
+        raise Unsupported("np.arange with a step or keyword arguments")
+    lo, hi = (0, args[0]) if len(args) == 1 else args
+    if all(isinstance(x, (int, np.integer)) and not isinstance(x, bool) for x in (lo, hi)):
+        return np.arange(lo, hi)
+    if any(isinstance(x, float) for x in (lo, hi)):
+        raise Unsupported("np.arange with float bounds")
+    n = to_z3num(hi) - to_z3num(lo)
+    return LArr(z3.If(n > 0, n, 0), lambda i, lo=lo: to_z3num(lo) + to_z3num(i))
+
+
 def np_ones(it, shape, dtype=None):
     return _filled(it, shape, 1.0)
 
@@ -1335,7 +1348,7 @@ def np_linspace(it, a, b, num=50):
 
 
 NP = {
-    "zeros": np_zeros, "ones": np_ones, "empty": np_empty, "full": np_full, "zeros_like": np_zeros_like, "ones_like": np_ones_like, "array": np_array,
+    "arange": np_arange, "zeros": np_zeros, "ones": np_ones, "empty": np_empty, "full": np_full, "zeros_like": np_zeros_like, "ones_like": np_ones_like, "array": np_array,
     "sum": np_sum, "divide": np_divide, "minimum": np_minimum, "maximum": np_maximum, "clip": np_clip, "where": np_where, "all": np_all, "any": np_any, "cumsum": np_cumsum,
     "prod": np_prod, "product": np_prod, "isfinite": np_isfinite, "isscalar": np_isscalar, "exp": np_exp, "argsort": np_argsort, "argmax": np_argmax, "isnan": np_isnan, "interp": np_interp, "matmul": np_matmul, "sqrt": np_sqrt, "isclose": np_isclose,
     "less": np_less, "round": np_round, "linspace": np_linspace, "abs": lambda it, x: b_abs(it, x), "ceil": lambda it, x: to_real(b_ceil(it, x)) if is_z3(x) else float(math.ceil(x)),
